@@ -66,6 +66,7 @@ T_C01_MintBurnOneBalance == [][C01_MintBurnOneBalance]_tv
 T_C01_MovesKeepSupply == [][C01_MovesKeepSupply]_tv
 T_C01_OthersKeep == [][C01_OthersKeep]_tv
 T_C01_Init == [][C01_Init]_tv
+T_UpgradeKeepsState == [][UpgradeKeepsState]_tv
 
 T_C02_DebitAuthorised == [][C02_DebitAuthorised]_tv
 T_C02_DrawGuard == [][C02_DrawGuard]_tv
